@@ -2,6 +2,7 @@
   Helper lemmas for Props/C14.lean (Surface Evolver parser model).
 -/
 import ForsysModel.Model.SEParser
+import ForsysModel.Proofs.C09
 import Mathlib.Tactic.FieldSimp
 import Mathlib.Algebra.Order.Field.Rat
 import Mathlib.Algebra.BigOperators.Group.List.Basic
@@ -295,10 +296,7 @@ theorem vsig_foldl_delEdge (l : List Id) : ∀ m : Mesh, vsig (l.foldl (fun m e 
   | nil => intro m; rfl
   | cons a l ih => intro m; rw [List.foldl_cons, ih, vsig_delEdge]
 
-/-- one round of the clean-up loop -/
-def orphanStep (m : Mesh) (i : Id) : Mesh :=
-  let m := (m.ownEdges i).foldl (fun m e => m.delEdge e) m
-  { m with vertices := m.vertices.filter fun p => p.1 != i }
+/- one round of the clean-up loop: `Mesh.orphanStep` (Proofs/C09.lean) -/
 
 theorem vsig_orphanStep (m : Mesh) (i : Id) : vsig (orphanStep m i) = (vsig m).filter fun p => p.1 != i := by
   unfold orphanStep
@@ -348,6 +346,55 @@ theorem mapM_eq_some_of_map {α β : Type} (f : α → Option β) (l : List α) 
     | cons b r =>
       simp only [List.map_cons, List.cons.injEq] at h
       rw [List.mapM_cons, h.1, ih r h.2]; rfl
+
+/-! ### deletion of the edges of no face (repair of D23) -/
+
+theorem dropFaceless_eq (used : List Id) (m : Mesh) :
+    dropFaceless used m = delEdges m ((m.edges.map (·.1)).filter fun k => !used.contains k) := rfl
+
+theorem dropFaceless_edges (used : List Id) (m : Mesh) (q : Id × SEdge) :
+    q ∈ (dropFaceless used m).edges ↔ q ∈ m.edges ∧ q.1 ∈ used := by
+  rw [dropFaceless_eq, delEdges_edges]
+  constructor
+  · rintro ⟨hq, hn⟩
+    refine ⟨hq, ?_⟩
+    by_cases hu : q.1 ∈ used
+    · exact hu
+    · exact absurd (List.mem_filter.mpr ⟨List.mem_map.mpr ⟨q, hq, rfl⟩, by simpa using hu⟩) hn
+  · rintro ⟨hq, hu⟩
+    refine ⟨hq, fun hmem => ?_⟩
+    have := (List.mem_filter.mp hmem).2
+    simp [hu] at this
+
+theorem dropFaceless_consP (used : List Id) (m : Mesh) (h : ConsP m)
+    (hused : ∀ q ∈ m.edges, (∃ c ∈ m.cells, ∃ ab ∈ cyclicPairs c.2.verts,
+        (q.2.v1 = ab.1 ∧ q.2.v2 = ab.2) ∨ (q.2.v1 = ab.2 ∧ q.2.v2 = ab.1)) → q.1 ∈ used) :
+    ConsP (dropFaceless used m) := by
+  obtain ⟨hK, hE, hC, hR, hN, hJ⟩ := h
+  have hcells : (dropFaceless used m).cells = m.cells := delEdges_cells m _
+  have hvk : (dropFaceless used m).vertices.map (·.1) = m.vertices.map (·.1) := delEdges_vkeys m _
+  obtain ⟨k1, k2⟩ := delEdges_keys_own m ((m.edges.map (·.1)).filter fun k => !used.contains k) hK hE
+  refine ⟨k1, k2, ?_, ?_, ?_, ?_⟩
+  · refine OwnCellsP_of_sim m _ hcells ?_ hC
+    intro p' hp'
+    obtain ⟨p, hp, _, a, b⟩ := delEdges_sim m _ p' hp'
+    exact ⟨p, hp, a, b⟩
+  · constructor
+    · intro q hq
+      have hq' := ((dropFaceless_edges used m q).mp hq).1
+      rw [hvk]
+      exact hR.1 q hq'
+    · intro q hq
+      rw [hcells] at hq
+      rw [hvk]
+      exact hR.2 q hq
+  · intro q hq
+    rw [hcells] at hq
+    exact hN q hq
+  · intro c hc ab hab
+    rw [hcells] at hc
+    obtain ⟨q, hq, hj⟩ := hJ c hc ab hab
+    exact ⟨q, (dropFaceless_edges used m q).mpr ⟨hq, hused q hq ⟨c, hc, ab, hab, hj⟩⟩, hj⟩
 
 end SE
 end Forsys
